@@ -58,8 +58,9 @@ type entry struct {
 // recorder is the stub pipeline.InputPluginController. cur is the request on whose behalf code runs right now
 // (set by the harness: sequential requests run one after another; in lock-step mode exactly one request runs).
 type recorder struct {
-	cur int
-	log []entry
+	cur     int
+	log     []entry
+	foreign []string // lock-step runs: a request's goroutine read from another request's body
 }
 
 func (c *recorder) In(sid pipeline.SourceID, _ string, _ pipeline.Offsets, data []byte, _ bool, _ metadata.MetaData) uint64 {
@@ -113,11 +114,20 @@ type chunkReader struct {
 	minBuf      int
 	gate        *creq
 	abort       bool
+	owner       int
+	rec         *recorder
 }
+
+var errForeign = errors.New("verif: body read by a request it does not belong to")
 
 var errReset = errors.New("verif: connection reset by peer")
 
 func (c *chunkReader) Read(p []byte) (int, error) {
+	if c.gate != nil && c.rec != nil && c.rec.cur != c.owner {
+		// lock-step: exactly one request runs at a time (rec.cur); it is reading a body that is not its own
+		c.rec.foreign = append(c.rec.foreign, fmt.Sprintf("request %d read from the body of request %d", c.rec.cur, c.owner))
+		return 0, errForeign
+	}
 	if c.gate != nil {
 		c.gate.ev <- false // arrived at a Read
 		<-c.gate.grant
@@ -155,6 +165,7 @@ type reqSpec struct {
 	Gzip        bool   `json:"gzip,omitempty"`
 	EOFWithLast bool   `json:"eof_with_last,omitempty"`
 	Abort       bool   `json:"abort,omitempty"` // after the chunks the transport fails (connection reset) instead of reporting EOF
+	BadGzip     bool   `json:"bad_gzip,omitempty"` // Content-Encoding: gzip but the body is not a gzip stream (answered 400); only primes the pools
 }
 
 type tcase struct {
@@ -167,6 +178,7 @@ type tcase struct {
 	Reqs     []reqSpec `json:"reqs"`           // sequential on one plugin instance, or concurrent when Schedule != nil
 	Schedule []int     `json:"schedule,omitempty"`
 	Main     int       `json:"main"` // index of the enumerated request (the others are primer/probe); -1: all
+	Pre      []reqSpec `json:"pre,omitempty"` // concurrent cases: requests run one after the other before the concurrent ones (they prime the pools)
 }
 
 func wantLines(body string) []string {
@@ -237,6 +249,7 @@ type checker struct {
 	big   map[int][]byte // reusable seeded buffers of the production default size
 	solo  map[string]int
 	seen  map[string]bool
+	stuck bool
 }
 
 func (c *checker) plugin(es bool, avg int) *httpin.Plugin {
@@ -296,7 +309,7 @@ func newRequest(es bool, rs reqSpec, body io.ReadCloser) *http.Request {
 		RemoteAddr: "127.0.0.1:1",
 		RequestURI: path,
 	}
-	if rs.Gzip {
+	if rs.Gzip || rs.BadGzip {
 		req.Header.Set("Content-Encoding", "gzip")
 	}
 	return req
@@ -304,7 +317,7 @@ func newRequest(es bool, rs reqSpec, body io.ReadCloser) *http.Request {
 
 // runReq runs one request to completion on the calling goroutine.
 func (c *checker) runReq(mode string, p *httpin.Plugin, idx int, rs reqSpec, gate *creq) (res reqResult) {
-	rd := &chunkReader{data: rs.transport(), chunks: rs.Chunks, eofWithLast: rs.EOFWithLast && !rs.Abort, gate: gate, abort: rs.Abort}
+	rd := &chunkReader{data: rs.transport(), chunks: rs.Chunks, eofWithLast: rs.EOFWithLast && !rs.Abort, gate: gate, abort: rs.Abort, owner: idx, rec: c.rec}
 	defer func() {
 		res.reads = rd.reads
 		res.minBuf = rd.minBuf
@@ -386,9 +399,17 @@ func (c *checker) runConcurrent(mode string, p *httpin.Plugin, reqs []reqSpec, s
 		} else {
 			q.grant <- struct{}{}
 		}
-		if <-q.ev {
+		select {
+		case fin := <-q.ev:
+			if fin {
+				q.done = true
+				q.last = k
+			}
+		case <-time.After(20 * time.Second):
+			// the request neither finished nor arrived at its next Read (it waits for something no request will do)
+			c.stuck = true
 			q.done = true
-			q.last = k
+			drift = true
 		}
 	}
 	k := 0
@@ -600,6 +621,9 @@ func nontrivial(tc *tcase) bool {
 // runCase executes one case (sequential requests, or one concurrent schedule) and applies the oracle.
 func (c *checker) runCase(tc *tcase) {
 	r := c.r
+	if c.stuck {
+		return // a request goroutine of an earlier case is stuck inside the plugin: nothing after it can be trusted
+	}
 	r.Case()
 	es := tc.Mode == "serve-es"
 	p := c.plugin(es, tc.Avg)
@@ -614,6 +638,7 @@ func (c *checker) runCase(tc *tcase) {
 		c.resetPools(p)
 		c.seed(p, tc.Buf, nSeed)
 		c.rec.log = c.rec.log[:0]
+		c.rec.foreign = nil
 		results = results[:0]
 		if tc.Schedule == nil {
 			for i, rs := range tc.Reqs {
@@ -621,6 +646,15 @@ func (c *checker) runCase(tc *tcase) {
 				results = append(results, c.runReq(tc.Mode, p, i, rs, nil))
 			}
 		} else {
+			for i, rs := range tc.Pre {
+				c.rec.cur = 1000 + i
+				if res := c.runReq(tc.Mode, p, 1000+i, rs, nil); res.panicked != "" {
+					c.viol("panic", c.feats(tc, "site", vreport.PanicSite(res.stack)), func() string {
+						return fmt.Sprintf("priming request %d body=%s: panic: %s\n%s", i, q(rs.Body), res.panicked, res.stack)
+					}, tc)
+					return
+				}
+			}
 			qs, drift = c.runConcurrent(tc.Mode, p, tc.Reqs, tc.Schedule)
 			for _, x := range qs {
 				results = append(results, x.res)
@@ -634,6 +668,19 @@ func (c *checker) runCase(tc *tcase) {
 			r.Cap("seeded read buffer lost by sync.Pool 4 times in a row")
 			return
 		}
+	}
+	if c.stuck {
+		c.viol("stuck", c.feats(tc), func() string {
+			return fmt.Sprintf("a request neither finished nor asked for more body data within 20 s of real time (lock-step run): reqs=%+v pre=%+v schedule=%v", tc.Reqs, tc.Pre, tc.Schedule)
+		}, tc)
+		r.Cap("a request goroutine got stuck; the enumeration of this shard stops here")
+		return
+	}
+	if len(c.rec.foreign) > 0 {
+		c.viol("lines", c.feats(tc, "kind", "foreign-body-read", "gzip", "true"), func() string {
+			return fmt.Sprintf("%s: concurrent requests mix their bodies; reqs=%+v pre=%+v schedule=%v", strings.Join(c.rec.foreign, "; "), tc.Reqs, tc.Pre, tc.Schedule)
+		}, tc)
+		return
 	}
 	allOK := true
 	steps := int64(0)
@@ -984,7 +1031,7 @@ func TestVerif(t *testing.T) {
 		}
 		return out
 	}
-	concurrent := func(sets [][]reqSpec, modes []string, cbufs []int) bool {
+	concurrent := func(pre []reqSpec, sets [][]reqSpec, modes []string, cbufs []int) bool {
 		idx := make([]int, len(sets))
 		for {
 			mine := r.Mine(item)
@@ -1004,7 +1051,7 @@ func TestVerif(t *testing.T) {
 							if si%256 == 0 && r.Expired() {
 								return false
 							}
-							c.runCase(&tcase{Mode: mode, Buf: buf, Avg: 0, Reqs: reqs, Schedule: sch, Main: -1})
+							c.runCase(&tcase{Mode: mode, Buf: buf, Avg: 0, Reqs: reqs, Schedule: sch, Main: -1, Pre: pre})
 						}
 					}
 				}
@@ -1024,12 +1071,31 @@ func TestVerif(t *testing.T) {
 			}
 		}
 	}
-	if !concurrent([][]reqSpec{specsFor('a', 3, true), specsFor('b', 3, true)}, []string{"serve", "bulk"}, []int{1, defaultBuf}) {
+	if !concurrent(nil, [][]reqSpec{specsFor('a', 3, true), specsFor('b', 3, true)}, []string{"serve", "bulk"}, []int{1, defaultBuf}) {
+		return
+	}
+	// the same with the pools primed by earlier requests that ended on an error path: a well-formed gzip request, then
+	// one whose body is not gzip at all (answered 400), then an aborted one
+	gzOnly := func(letter byte) []reqSpec {
+		var out []reqSpec
+		for _, rs := range specsFor(letter, 0, true) {
+			if rs.Gzip {
+				out = append(out, rs)
+			}
+		}
+		return out
+	}
+	primed := []reqSpec{
+		{Body: "bb\nab", Gzip: true, Chunks: []int{len(gz("bb\nab"))}},
+		{Body: "this is not gzip", BadGzip: true, Chunks: []int{16}},
+		{Body: "ab\nbab", Chunks: []int{4, 3}, Abort: true},
+	}
+	if !concurrent(primed, [][]reqSpec{gzOnly('a'), gzOnly('b')}, []string{"serve"}, []int{1, defaultBuf}) {
 		return
 	}
 	n3 := 1
 	if r.Thorough() {
 		n3 = 2
 	}
-	concurrent([][]reqSpec{specsFor('a', n3, false), specsFor('b', n3, false), specsFor('c', n3, false)}, []string{"serve"}, []int{1, defaultBuf})
+	concurrent(nil, [][]reqSpec{specsFor('a', n3, false), specsFor('b', n3, false), specsFor('c', n3, false)}, []string{"serve"}, []int{1, defaultBuf})
 }
